@@ -62,6 +62,10 @@ def run(tier):
         if len(ck.samples) < 2 and len(bodies) >= 2:
             ck.sample({"main": p["steps"][0][1][:700], "modules": [(a, b[:300]) for a, b in p["mods"][:3]], "expected_output": v["out"][:12]})
 
+    rs = ck.rng.fork("selfimport")
+    for i in range(200 if quick else 6000 * common.TS):
+        _s, _m = feat_mod.self_import_program(rs.fork(str(i)))
+        plist.append({"name": "selfimport/%d" % i, "steps": [("snip", _s)], "mods": _m})
     rd = ck.rng.fork("deepimport")
     for i in range(200 if quick else 6000 * common.TS):
         _s, _m = feat_mod.deep_import_program(rd.fork(str(i)))
